@@ -240,3 +240,76 @@ def r4(cx):
         sb = skel(bb_)
         cx.check(sa == sb, "%s and %s are mirror images (same calls under first/last, next/prev, upper/lower swap)" % (a.split("::")[-1], b_.split("::")[-1]), "mirror|%s" % a, ba.where(),
                  "mirror pair differs: %s vs %s" % (sa, sb))
+
+
+# the filtering cursors that carry per-key state between steps; (type, forward step, backward step)
+CARRYING = (("SnapshotIterator", "skip_to_valid_forward", "skip_to_valid_backward"),
+            ("HistoryIterator", "skip_to_valid_forward", "collect_user_key_backward"))
+# carried fields that need no reset, with the reason (confirmed by reading the code)
+GUARDED = {
+    ("SnapshotIterator", "buffered_back_key"): "only read while has_buffered_back is set; the flag is reset (checked below)",
+    ("SnapshotIterator", "buffered_back_value"): "only read while has_buffered_back is set; the flag is reset (checked below)",
+    ("SnapshotIterator", "current_back_key"): "only read while has_current_back is set; the flag is reset (checked below)",
+    ("SnapshotIterator", "current_back_value"): "only read while has_current_back is set; the flag is reset (checked below)",
+}
+
+
+def _resets(b, Wm, fld, steps):
+    w = Wm.get(fld, set())
+    return bool(w) and all(b.set_dominates(w - {s_.bb}, s_.bb) for s_ in steps)
+
+
+@rule("C09", "C09.R5", "absolute repositioning (seek / seek_first / seek_last) discards the state carried from the previous position")
+def r5(cx):
+    """The step function of a filtering cursor reads fields that it also writes (`last key handled`, barrier flags, counters,
+    look-ahead buffers): state carried from one step to the next.  After seek/seek_first/seek_last the underlying merge
+    iterator stands at an unrelated position, so every carried field must have been reset on every path before the step
+    function runs -- otherwise the first key at the new position can be taken for `already handled` and is skipped.
+    Buffers that are only read under a flag are exempt (table GUARDED); every bool flag a step function may set is reset
+    by all three repositioning calls."""
+    f = cx.f
+    n = 0
+    for ty, fwd, bwd in CARRYING:
+        impl = {}
+        for m in ("seek", "seek_first", "seek_last"):
+            c = [b for b in f.scan_bodies() if b.name == m and b.impl_trait and b.impl_trait.endswith("LSMIterator")
+                 and (b.self_ty or "").split("<")[0].split("::")[-1] == ty]
+            if len(c) != 1:
+                raise AnchorMissing("%s: %d implementations of LSMIterator::%s" % (ty, len(c), m))
+            impl[m] = c[0]
+        fields = {x[0]: x[1] for x in f.adt(ty)["variants"][0]["fields"]} if isinstance(f.adt(ty)["variants"], list) else {x[0]: x[1] for x in f.adt(ty)["variants"]["fields"]}
+        flags = set()
+        for step, methods in ((fwd, ("seek", "seek_first")), (bwd, ("seek_last",))):
+            sb = f.body("%s::%s" % (ty, step))
+            R, W = self_field_sites(f, sb, callee_writes="may")
+            flags |= {x for x in W if fields.get(x) == "bool"}
+            # the wrapped iterator is repositioned by the seek itself
+            carried = sorted(x for x in set(R) & set(W) if not any(k in x for k in ("iter", "inner")) and (ty, x) not in GUARDED)
+            cx.note("%s::%s carries %s (guarded, exempt: %s)" % (ty, step, carried, sorted(x for x in set(R) & set(W) if (ty, x) in GUARDED)))
+            if step == fwd:
+                cx.floor("%s: carried forward-state fields" % ty, len(carried), 1)
+            for m in methods:
+                b = impl[m]
+                steps = sites(cx, b, "%s::%s" % (ty, step))
+                _, Wm = self_field_sites(f, b)
+                for fld in carried:
+                    n += 1
+                    cx.check(_resets(b, Wm, fld, steps), "%s::%s resets `%s` before %s()" % (ty, m, fld, step), "stale-carried-state|%s::%s|%s" % (ty, m, fld), steps[0].where(),
+                             "%s::%s repositions the underlying iterator but keeps `%s` from the previous position; %s() reads it, so the "
+                             "first key at the new position can be skipped as `already handled` (a live key is not enumerated)" % (ty, m, fld, step))
+        for m in ("seek", "seek_first", "seek_last"):
+            b = impl[m]
+            steps = [c for c in b.calls if c.bb in b.live and c.names & {"%s::%s" % (ty, fwd), "%s::%s" % (ty, bwd)}]
+            _, Wm = self_field_sites(f, b)
+            for fld in sorted(flags):
+                n += 1
+                cx.check(_resets(b, Wm, fld, steps), "%s::%s resets the flag `%s`" % (ty, m, fld), "stale-flag|%s::%s|%s" % (ty, m, fld), b.where(),
+                         "%s::%s leaves the flag `%s` as the previous position set it: the buffers it guards are served / compared at the new position" % (ty, m, fld))
+        # siblings: seek and seek_first are both absolute forward repositioners and must reset the same fields
+        _, Ws = self_field_sites(f, impl["seek"])
+        _, Wf = self_field_sites(f, impl["seek_first"])
+        ignore = {x for x in set(Ws) | set(Wf) if any(k in x for k in ("iter", "inner"))}
+        d = (set(Wf) - set(Ws)) - ignore
+        cx.check(not d, "%s: seek() writes every field seek_first() writes" % ty, "seek-vs-seek_first|%s" % ty, impl["seek"].where(),
+                 "%s::seek leaves %s untouched although seek_first resets it" % (ty, sorted(d)))
+    cx.floor("carried-state reset obligations", n, 12)
